@@ -23,6 +23,7 @@ prop('C19',
 
 INTERIOR = re.compile(r'\b(std::cell::(Cell|RefCell|UnsafeCell|OnceCell|LazyCell)|std::sync::(Mutex|RwLock|Once|OnceLock|LazyLock|Condvar|Barrier)|'
                       r'std::sync::atomic::|core::cell::|once_cell::|lazy_static|parking_lot::|std::sync::mpsc::)')
+THREAD_BOUND = re.compile(r'\b(std::rc::(Rc|Weak)|alloc::rc::|std::sync::(MutexGuard|RwLockReadGuard|RwLockWriteGuard)|std::ptr::NonNull|std::marker::PhantomData<\*)|\*(const|mut) ')
 LOCK = r'^std::sync::Mutex::<T>::lock$'
 RNG_ACCESSOR = r'^api::Covercrypt::rng$'
 
@@ -50,6 +51,15 @@ def state_audit(ctx):
                 ctx.check(not INTERIOR.search(f['ty']), path, 'field %s not interior-mutable' % f['name'],
                           'field `%s: %s` of %s is interior-mutable shared state' % (f['name'], f['ty'], path), f['ty'][:60], a['span'])
     ctx.floor(n, 40, 'ADT fields audited')
+    # "used from several threads at once ... on distinct key objects": keys, encapsulations and the instance can be handed to and
+    # borrowed by other threads — no field of any type of the crate is thread-bound (Rc, raw pointer, a guard); the compile-pass
+    # witness of the thorough tier checks the auto traits themselves
+    for path, a in sorted(F.adts.items()):
+        for v in a['variants']:
+            for f in v['fields']:
+                ctx.check(not THREAD_BOUND.search(f['ty']), path, 'field %s can cross threads' % f['name'],
+                          'field `%s: %s` of %s is neither Send nor Sync: every key or encapsulation that contains it can no longer be '
+                          'moved to or shared with another thread' % (f['name'], f['ty'], path), f['ty'][:60], a['span'])
     # thread_local! expands to a static / LocalKey
     tl = [b.key for b in F.fns() if 'thread_local' in b.key or '__getit' in b.key]
     ctx.check(not tl, '-', 'no thread_local', 'thread-local state found: %s' % tl, 'none', '')
